@@ -32,6 +32,9 @@ INT_POOL = {
     "three_b": (("addi", "a", "b"), ("subi", "a", "b"), ("muli", "b", 1)),
     "three_1": (("addi", "a", "b"), ("subi", "a", "b"), ("muli", 1, 0)),
     # operations carrying flags (the merged element keeps one operation per kind, whatever its flags)
+    # the same operations, another one of them returned
+    "sub_mul_yield_first": (("subi", "a", "b"), ("muli", 0, "a"), ("yield", 0, None)),
+    "sub_mul_yield_last": (("subi", "a", "b"), ("muli", 0, "a")),
     "mul_nsw": (("muli_nsw", "a", "b"),),
     "add_nuw_mul": (("addi_nuw", "a", "b"), ("muli", 0, "b")),
     "sub_mul_nsw": (("subi", "a", "b"), ("muli_nsw", 0, "a")),
@@ -67,7 +70,11 @@ def make_generic(kernel, is_float):
     def val(s):
         return b.args[0] if s == "a" else b.args[1] if s == "b" else res[s]
 
+    yield_at = -1
     for (nm, s1, s2) in kernel:
+        if nm == "yield":  # ("yield", k, None): the body returns the result of operation k, not of the last one
+            yield_at = s1
+            continue
         if nm.endswith(("_nsw", "_nuw")):
             fl = arith.IntegerOverflowFlag.NSW if nm.endswith("_nsw") else arith.IntegerOverflowFlag.NUW
             o = CL[nm[:-4]](val(s1), val(s2), overflow=arith.IntegerOverflowAttr([fl]))
@@ -77,7 +84,7 @@ def make_generic(kernel, is_float):
             o = CL[nm](val(s1), val(s2))
         b.add_op(o)
         res.append(o.results[0])
-    b.add_op(linalg.YieldOp(res[-1]))
+    b.add_op(linalg.YieldOp(res[yield_at]))
     mt = MemRefType(t, [16])
     srcs = [test.TestOp(result_types=[mt]) for _ in range(3)]
     m = builtin.AffineMapAttr(AffineMap.identity(1))
@@ -292,6 +299,14 @@ def case_hw(case):
 
     def fn():
         abstract, acc, dec = build()
+        # one accelerator object asked for the switch values of every kernel in turn: each answer is the decode of THAT kernel
+        for rep in range(2):
+            for nm in names:
+                g, conc = encode(pool[nm], is_float)
+                want = list(decode_abstract_graph(abstract, conc))
+                g2, _ = encode(pool[nm], is_float)
+                got = [v.owner.value.value.data for _, v in acc.get_switch_values(g2)]
+                eng().oblige("hw:accelerator_switch_values_are_the_decode_of_this_kernel", z3.BoolVal(got == want), dict(kernel=nm, got=got, decoded=want, history=list(names)))
         n = len([f for f in acc.fields if f.startswith("phs_switch_")])
         eng().oblige("hw:switch_fields_equal_true_switches_equal_decoded", z3.BoolVal(n == abstract.get_true_switches() == len(dec)),
                      dict(fields=n, true=abstract.get_true_switches(), decoded=len(dec)))
@@ -301,7 +316,10 @@ def case_hw(case):
         n = len([x for x in acc.fields if x.startswith("phs_switch_")])
         return not (n == abstract.get_true_switches() == len(dec)), f"fields={n} true={abstract.get_true_switches()} decoded={len(dec)}"
 
-    return run_case(fn, replay, signature="hw:switch_count", sample=dict(history=list(names)), key=str(case))
+    from ..harness import replay_pinned
+
+    return run_case(fn, lambda f: replay_pinned(fn, f), signature=lambda f, v: "hw:switch_count" if f["name"].startswith("hw:switch_fields") else f["name"],
+                    sample=dict(history=list(names)), key=str(case))
 
 
 def run(chk):
@@ -353,7 +371,8 @@ def run(chk):
             cases.append((tuple(rnd.sample(ipool, 6)), False))
     if only in (None, "hist"):
         chk.add_results("merge_histories", pmap(case_history, cases, chunks=8))
-    hw = [(p, False) for p in itertools.permutations(ipool[:8], 2)] + [(p, False) for p in rnd.sample(list(itertools.permutations(ipool, 3)), 60)]
+    hw = [(("sub_mul_yield_first", "sub_mul_yield_last"), False), (("sub_mul_yield_last", "sub_mul_yield_first", "mul"), False), (("sub", "sub_mul_yield_last", "sub_mul_yield_first"), False)]
+    hw += [(p, False) for p in itertools.permutations(ipool[:8], 2)] + [(p, False) for p in rnd.sample(list(itertools.permutations(ipool, 3)), 60)]
     if only in (None, "hw"):
         chk.add_results("hardware_switch_count", pmap(case_hw, hw, chunks=8))
     chk.bounds = dict(int_pool=ipool, float_pool=fpool, history_length=f"1..{maxlen} (+ the four three-operation kernels that route one operand from four places, in every order, + sampled 5 and 6 in thorough)", widths=32)
